@@ -31,7 +31,9 @@ RULE = ("histories on goal regions of 0..4 goal states (0: correspondence only),
         "state first / last / several / none, called before or after the single queries), state_list setter (new, same object, copy) "
         "and in-place list edits, attribute replacement / removal / interval-end setters, shape setters, translate_rotate on goal / "
         "problem / set level (pure translations exact and predicted by the model, rotations judged with a band), goal setter, "
-        "deepcopy / pickle swaps, failing operations (invalid goal list, int time step, invalid angle, interval-end assertion) followed "
+        "whole-scene motions (scenario or lanelet network and planning problem set moved by the same motion, either order) on goal "
+        "regions read from XML / protobuf files or built in memory from the lanelets' own polygon objects, one Shape object shared by "
+        "two goal states, deepcopy / pickle swaps, failing operations (invalid goal list, int time step, invalid angle, interval-end assertion) followed "
         "by queries, read-only operations (hash, ==, str, used_attributes) before queries. "
         "distinct = canonical JSON; non-trivial = every case (each query state sits at / near a constraint boundary of a goal state)")
 ASSUMPTIONS = ["shape membership of the state's position (contains_point) is computed by the C06 shape model on the shapes read back "
@@ -65,7 +67,8 @@ REQUIRED_BUCKETS = ["state/PMState", "state/KSState", "state/KSTState", "state/S
                     "hist/pos_edit", "hist/tr/translation", "hist/tr/rotation", "hist/tr/level/goal", "hist/tr/level/pp",
                     "hist/tr/level/pps", "hist/set_goal", "hist/swap/deepcopy", "hist/swap/pickle", "hist/fail/bad_list",
                     "hist/fail/int_time", "hist/fail/bad_angle", "hist/fail/bad_end", "hist/fail-then-query", "hist/ro/hash",
-                    "hist/ro/eq", "hist/ro/str", "hist/query-after-edit", "corr/moved", "file/xml", "file/pb"]
+                    "hist/ro/eq", "hist/ro/str", "hist/query-after-edit", "corr/moved", "file/xml", "file/pb", "file/mem",
+                    "file/lanelet-goal-moved", "hist/tr_all/scn_first", "hist/tr_all/pps_first", "goal/aliased-shape"]
 
 BAND = Fraction(1, 10 ** 9)
 BAND_INEXACT = Fraction(1, 10 ** 8)
@@ -89,7 +92,8 @@ DIMENSIONS = {
     "GoalRegion": {
         "ctor": {
             "state_list": V + "0..4 goal states, each any subset of position / orientation / velocity (+ mandatory time), of class "
-                              "CustomState or any dataclass State that has the fields; list object later edited in place",
+                              "CustomState or any dataclass State that has the fields; list object later edited in place; two goal "
+                              "states holding the SAME Shape object (alias_of)",
             "lanelets_of_goal_position": V + "lan_mode omitted / none / empty / auto (dict for the lanelet goals) / extra (entries "
                                              "for non-lanelet and out-of-range indices); never read by is_reached"},
         "members": {
@@ -121,7 +125,9 @@ DIMENSIONS = {
             "planning_problem_dict": V + "read by via=pps queries",
             "add_planning_problem": V + "pps built by add",
             "find_planning_problem_by_id": V + "via=pps queries and goal_reached",
-            "translate_rotate": V + "tr step on set level (moves the decoy problem as well)",
+            "translate_rotate": V + "tr step on set level (moves the decoy problem as well); tr_all step: together with "
+                                    "Scenario / LaneletNetwork.translate_rotate by the same motion, in either order, on goal regions "
+                                    "whose shapes are the lanelets' own polygon objects (XML reader, in-memory) or copies (protobuf)",
             "draw": N + "rendering only",
             "__eq__": V + "ro step eq", "__hash__": V + "ro step hash"}},
     "Interval": {
@@ -650,9 +656,15 @@ def lanelet_arg(goals, mode):
     return True, (auto or None)
 
 
-def build_goal(goals, lan_mode="auto"):
+def build_goal(goals, lan_mode="auto", alias=False):
     from commonroad.planning.goal import GoalRegion
     sts = [build_goal_state(g) for g in goals]
+    if alias:
+        # "alias_of": j — the goal state holds the SAME Shape object as goal state j (one shape used in two goals)
+        for i, g in enumerate(goals):
+            j = g.get("alias_of")
+            if j is not None and 0 <= j < i and "pos" in g and goals[j].get("pos") == g["pos"]:
+                sts[i].position = sts[j].position
     give, d = lanelet_arg(goals, lan_mode)
     return GoalRegion(sts, d) if give else GoalRegion(sts)
 
@@ -1030,7 +1042,7 @@ def spec_apply(specs, step):
             sp.pop(k, None)
         specs[step["i"]] = g
         return specs
-    if op == "tr":
+    if op in ("tr", "tr_all"):
         return [tr_goal(g, step["t"], step["a"]) for g in specs]
     return specs
 
@@ -1051,7 +1063,7 @@ class World:
         from commonroad.scenario.state import CustomState
         self.lan_mode = case.get("lan_mode", "auto")
         self.specs = copy.deepcopy(case["goals"])
-        self.G = build_goal(self.specs, self.lan_mode)
+        self.G = build_goal(self.specs, self.lan_mode, alias=True)
         pp = case.get("pp") or {}
         self.pid = pp.get("id", 1)
         self.PP = PlanningProblem(self.pid, _initial_state(), self.G)
@@ -1311,6 +1323,25 @@ def do_edit(ctx, W, step):
                                                  if getattr(g, "position", None) is not None) else None
         if pre is not None:
             W.moved = (pre, t)
+    elif op == "tr_all":
+        # the whole scene is moved: the scenario (or its lanelet network) and the planning problem set, by the same motion, in
+        # either order.  The goal region must end up moved ONCE, also when its shapes are objects the scenario owns as well
+        t, a = step["t"], step["a"]
+        arr = np.array(t, dtype=float)
+        scn = getattr(W, "scenario", None)
+        owner = None if scn is None else (scn.lanelet_network if step.get("net") == "network" else scn)
+        ctx.tag("hist/tr_all/" + step["order"])
+        if owner is not None and any("lanelets" in g for g in W.specs):
+            ctx.tag("file/lanelet-goal-moved")
+        for who in (("scn", "pps") if step["order"] == "scn_first" else ("pps", "scn")):
+            if who == "pps":
+                W.PPS.translate_rotate(arr, a)
+            elif owner is not None:
+                owner.translate_rotate(arr, a)
+        was_stale = W.stale
+        W.dirty()
+        W.stale = was_stale if was_stale and any(shape_is_stale(g.position) for g in G.state_list
+                                                 if getattr(g, "position", None) is not None) else None
     elif op == "set_goal":
         ctx.tag("hist/set_goal")
         W.replace_goal(build_goal(W.specs, W.lan_mode))
@@ -1396,24 +1427,33 @@ class FileWorld(World):
         sc.add_objects(LaneletNetwork.create_from_lanelet_list(lanelets))
         self.lan_mode = "auto"
         self.specs = file_specs(case)
-        G = GoalRegion([build_goal_state(g) for g in self.specs],
-                       {i: list(g["lanelets"]) for i, g in enumerate(case["goals"]) if "lanelets" in g} or None)
+        fmt = case.get("fmt", "xml")
+        sts = [build_goal_state(g) for g in self.specs]
+        if fmt == "mem":
+            # no file: the goal ShapeGroup holds the lanelets' own polygon objects, as the XML reader builds it
+            from commonroad.geometry.shape import ShapeGroup
+            for gs, g in zip(sts, case["goals"]):
+                if "lanelets" in g:
+                    gs.position = ShapeGroup([sc.lanelet_network.find_lanelet_by_id(i).polygon for i in g["lanelets"]])
+        G = GoalRegion(sts, {i: list(g["lanelets"]) for i, g in enumerate(case["goals"]) if "lanelets" in g} or None)
         self.pid = (case.get("pp") or {}).get("id", 1)
         pps = PlanningProblemSet([PlanningProblem(self.pid, _initial_state(), G)])
-        fmt = case.get("fmt", "xml")
+        self.snap = self.moved = self.stale = None
+        self.edited = self.failed_op = False
+        if fmt == "mem":
+            self.scenario, self.PPS, self.PP, self.G = sc, pps, pps.find_planning_problem_by_id(self.pid), G
+            return
         path = os.path.join(tmpdir, "c08_goal." + fmt)
         ff = FileFormat.PROTOBUF if fmt == "pb" else FileFormat.XML
         from commonroad.scenario.scenario import Location
         CommonRoadFileWriter(sc, pps, "a", "b", "c", {Tag.URBAN}, Location(),
                              file_format=ff).write_to_file(path, OverwriteExistingFile.ALWAYS)
         try:
-            _, self.PPS = CommonRoadFileReader(path, file_format=ff).open()
+            self.scenario, self.PPS = CommonRoadFileReader(path, file_format=ff).open()
         finally:
             os.remove(path)             # (a second write to the same path makes the writer print a note)
         self.PP = self.PPS.find_planning_problem_by_id(self.pid)
         self.G = self.PP.goal
-        self.snap = self.moved = self.stale = None
-        self.edited = self.failed_op = False
 
 
 def gen_file_case(ctx):
@@ -1442,12 +1482,21 @@ def gen_file_case(ctx):
         if r.random() < 0.5:
             g["vel"] = sorted([r.randint(0, 400) / 16.0, r.randint(0, 400) / 16.0])
         goals.append(g)
-    case = {"kind": "file", "fmt": r.choice(["xml", "xml", "pb"]), "lanelets": lanelets, "goals": goals,
+    case = {"kind": "file", "fmt": r.choice(["xml", "xml", "pb", "mem"]), "lanelets": lanelets, "goals": goals,
             "pp": {"id": r.choice([1, 7, 300])}}
     specs = file_specs(case)
     case["steps"] = [gen_query(r, specs, via=r.choice(["goal", "pps"])) for _ in range(r.randint(1, 3))]
     if r.random() < 0.3:
         case["steps"].append(gen_traj(r, specs))
+    if r.random() < 0.6:
+        # the scene is moved as a whole (scenario / lanelet network and planning problems by the same motion), then queried again
+        mv = {"op": "tr_all", "t": [grid(r, 160), grid(r, 160)], "a": r.choice([0, 0, 0, math.pi / 2, 0.3, -1.2, r.uniform(-6.2, 6.2)]),
+              "order": r.choice(["scn_first", "scn_first", "pps_first"]), "net": r.choice(["scenario", "scenario", "network"])}
+        case["steps"].append(mv)
+        specs = spec_apply(specs, mv)
+        case["steps"] += [gen_query(r, specs, via=r.choice(["goal", "pps"])) for _ in range(r.randint(1, 3))]
+        if r.random() < 0.4:
+            case["steps"].append(gen_traj(r, specs))
     return case
 
 
@@ -1480,6 +1529,8 @@ def run_case(ctx, case):
         ctx.tag("goal/empty-list")
     for g in goals:
         tag_goal(ctx, g)
+        if "alias_of" in g:
+            ctx.tag("goal/aliased-shape")
     for k, step in enumerate(case["steps"]):
         sub = dict(case, steps=case["steps"][:k + 1])
         op = step["op"]
@@ -1575,7 +1626,7 @@ def gen_edit(r, specs):
     n = len(specs)
     kinds = ["set_list"] * 3 + ["tr"] * 4 + ["fail"] * 2 + ["ro"] * 2 + ["set_goal", "swap"]
     if n:
-        kinds += ["set_attr"] * 4 + ["pos_edit"] * 3
+        kinds += ["set_attr"] * 4 + ([] if any("alias_of" in g for g in specs) else ["pos_edit"] * 3)
     op = r.choice(kinds)
     if op == "set_list":
         how = r.choice(["setter_new", "setter_new", "setter_same", "setter_copy", "append", "append", "insert0", "reverse"]
@@ -1631,6 +1682,8 @@ def gen_edit(r, specs):
     if op == "tr":
         a = r.choice([0, 0, 0, 0.0, math.pi / 2, -math.pi / 2, math.pi, 0.3, -1.2, r.uniform(-6.2, 6.2), 1])
         t = r.choice([[grid(r, 160), grid(r, 160)], [grid(r, 160), grid(r, 160)], [0.0, 0.0], [r.randint(-9, 9), r.randint(-9, 9)]])
+        if r.random() < 0.15:
+            return {"op": "tr_all", "t": [float(x) for x in t], "a": a, "order": r.choice(["scn_first", "pps_first"])}
         step = {"op": op, "t": t, "a": a, "level": r.choice(["goal", "goal", "pp", "pps"])}
         if all(isinstance(x, int) for x in t):
             step["int_t"] = True
@@ -1653,6 +1706,15 @@ def gen_case(ctx):
     r = ctx.rng
     ngoals = r.choice([1, 1, 2, 2, 3, 4]) if r.random() > 0.02 else 0
     goals = [gen_goal_state(r) for _ in range(ngoals)]
+    if ngoals >= 2 and r.random() < 0.12:
+        j = r.randrange(ngoals - 1)
+        i = r.randrange(j + 1, ngoals)
+        if "pos" in goals[j] and goals[i].get("cls", "CustomState") == "CustomState":
+            goals[i]["pos"] = copy.deepcopy(goals[j]["pos"])
+            goals[i].pop("lanelets", None)
+            if "lanelets" in goals[j]:
+                goals[i]["lanelets"] = list(goals[j]["lanelets"])
+            goals[i]["alias_of"] = j
     case = {"goals": goals, "lan_mode": r.choice(["auto"] * 5 + ["omitted", "omitted", "none", "empty", "extra"]),
             "pp": {"id": r.choice([1, 1, 0, 7, 10 ** 6]), "set": r.choice(["ctor", "ctor_rev", "add"])}}
     roll = r.random()
